@@ -80,7 +80,9 @@ def path_axioms():
     """Facts about pathlib used by the contracts (assumed; listed in the trusted base)."""
     p, q = z3.Const("p!ax", PathS), z3.Const("q!ax", PathS)
     s, t = z3.String("s!ax"), z3.String("t!ax")
+    p_suffix = z3.Function("p_suffix", PathS, z3.StringSort())
     ax = [
+        z3.ForAll([p, s], p_suffix(p_with_suffix(p, s)) == s, patterns=[p_with_suffix(p, s)]),
         z3.ForAll([p, s], p_parent(p_join(p, s)) == p, patterns=[p_join(p, s)]),
         z3.ForAll([p, s], p_name(p_join(p, s)) == s, patterns=[p_join(p, s)]),
         z3.ForAll([s], p_str(p_of_str(s)) == s, patterns=[p_of_str(s)]),
@@ -124,3 +126,21 @@ def qforall(vs, body, patterns=None):
         except z3.Z3Exception:
             pass
     return z3.ForAll(vs, body)
+
+
+def _unwrap(cons, acc):
+    def f(t):
+        # accessor applied to its own constructor is resolved syntactically (keeps E-matching triggers effective)
+        if z3.is_app(t) and t.num_args() == 1 and t.decl().name() == cons:
+            return t.arg(0)
+        return acc(t)
+    return f
+
+
+vi = _unwrap("IntV", Val.i)
+vb = _unwrap("BoolV", Val.b)
+vs = _unwrap("StrV", Val.s)
+vp = _unwrap("PathV", Val.p)
+vr = _unwrap("RefV", Val.r)
+vf = _unwrap("FloatV", Val.f)
+vbs = _unwrap("BytesV", Val.bs)
